@@ -539,8 +539,6 @@ func VerifRun_C20() {
 					class = "C20-dotted-string-key"
 				case line == 5 && typ == 5:
 					class = "C20-int-key-encoding"
-				case line == 7 && typ == 15:
-					class = "C20-nil-operand"
 				}
 			}
 			if ng < nw {
